@@ -8,7 +8,7 @@ import time
 
 import z3
 
-from . import dag, nf, smt, sx
+from . import dag, nf, smt, sx, xcheck
 
 PROVED, REFUTED, UNDECIDED = "PROVED", "REFUTED", "UNDECIDED"
 
@@ -104,6 +104,9 @@ def _z3_check(ctx, path, extra, timeout_ms):
     if r == z3.sat:
         m = s.model()
         model = {nm: smt.model_value(m, nm) for nm in set(zm.names) | set(ctx.var_range)}
+    if r == z3.unsat:
+        # second opinion of an independent solver on the same assertion stack (assumption A8)
+        model = xcheck.second_opinion(s)
     return r, model, dt
 
 
@@ -128,7 +131,9 @@ def discharge(ctx, path, claim, smt_timeout_ms=20000, use_smt=True):
         if use_smt:
             r, model, dt = _z3_check(ctx, path, lambda zm: zm.term(d) != 0, smt_timeout_ms)
             if r == z3.unsat:
-                return PROVED, "z3", {"t": time.time() - t0}
+                if model.startswith("DISAGREE"):
+                    return UNDECIDED, "solver-disagreement", {"t": time.time() - t0, "xcheck": model}
+                return PROVED, "z3", {"t": time.time() - t0, "xcheck": model}
             if r == z3.sat:
                 try:
                     if ctx.holds_at({k: float(x) for k, x in model.items()}):
@@ -157,7 +162,9 @@ def discharge(ctx, path, claim, smt_timeout_ms=20000, use_smt=True):
                 return z3.Or([{1: t > 0, -1: t < 0, 0: t == 0}[s] for s in bad])
             r, model, dt = _z3_check(ctx, path, extra, smt_timeout_ms)
             if r == z3.unsat:
-                return PROVED, "z3", {"t": time.time() - t0}
+                if model.startswith("DISAGREE"):
+                    return UNDECIDED, "solver-disagreement", {"t": time.time() - t0, "xcheck": model}
+                return PROVED, "z3", {"t": time.time() - t0, "xcheck": model}
             if r == z3.sat:
                 try:
                     if ctx.holds_at({k: float(x) for k, x in model.items()}):
